@@ -509,6 +509,15 @@ func (e *kengine) refine(s *kstate, cond ssa.Value, pol bool) {
 			return
 		}
 		eq := (c.Op == token.EQL) == pol
+		// `v, err := helper(…); if err != nil { return }`: on the err == nil edge the other results of a package helper
+		// have the facts of the helper's returns that return a nil error
+		if eq {
+			for _, pair := range [][2]ssa.Value{{c.X, c.Y}, {c.Y, c.X}} {
+				if isNilConst(pair[1]) {
+					e.refineSuccessResults(s, pair[0])
+				}
+			}
+		}
 		// Kind(x) ==/!= K
 		for _, pair := range [][2]ssa.Value{{c.X, c.Y}, {c.Y, c.X}} {
 			if x, ok := e.reflectCall(pair[0], "Kind"); ok {
@@ -1222,3 +1231,76 @@ func keyFromMapKeys(p *Prog, k ssa.Value, m ssa.Value) bool {
 	}
 	return p.VN(c.Common().Args[0]) == p.VN(m)
 }
+
+// refineSuccessResults: errv is the error result of a call of a package function; sets the facts of the call's
+// reflect.Value results to the join over the callee's returns whose error result is the nil constant.
+func (e *kengine) refineSuccessResults(s *kstate, errv ssa.Value) {
+	ex, ok := errv.(*ssa.Extract)
+	if !ok {
+		return
+	}
+	call, ok := ex.Tuple.(*ssa.Call)
+	if !ok {
+		return
+	}
+	callee := call.Common().StaticCallee()
+	if callee == nil || !e.p.InPkg(callee) || callee.Blocks == nil || callee == e.f {
+		return
+	}
+	res := callee.Signature.Results()
+	if ex.Index != res.Len()-1 || typeName(res.At(ex.Index).Type()) != "error" {
+		return
+	}
+	if kVisiting[callee] {
+		return
+	}
+	kVisiting[callee] = true
+	ce := kEngineFor(e.p, callee, e.preds, map[*ssa.Function]bool{e.f: true})
+	delete(kVisiting, callee)
+	for i := 0; i < res.Len()-1; i++ {
+		if !isReflectValue(res.At(i).Type()) {
+			continue
+		}
+		var joined *kfact
+		for _, ret := range returnsOf(callee) {
+			if len(ret.Results) != res.Len() || !isNilConst(res0(ret, res.Len()-1)) {
+				continue
+			}
+			st := ce.out[ret.Block()]
+			if st == nil {
+				continue // unreachable return
+			}
+			f := ce.get(st, res0(ret, i))
+			if joined == nil {
+				g := f
+				joined = &g
+			} else {
+				j := kfact{kinds: joined.kinds | f.kinds, ci: joined.ci, addr: joined.addr && f.addr}
+				if f.ci < j.ci {
+					j.ci = f.ci
+				}
+				joined = &j
+			}
+		}
+		if joined == nil {
+			continue
+		}
+		// a helper through which the reflect Call is made: what it hands back are results of the call of the caller's
+		// function value, interfaceable iff that one was (the same reasoning as for fn.Call(args) itself)
+		if fi, _, isW := reflectCallWrapperIdx(e.p, callee, 0); isW && fi < len(call.Common().Args) {
+			fnFact := e.get(s, call.Common().Args[fi])
+			joined.ci = fnFact.ci
+			if joined.ci == ciIfValid {
+				joined.ci = ciYes
+			}
+		}
+		// the Extract of result i of this call
+		for _, u := range refs(call) {
+			if rx, isEx := u.(*ssa.Extract); isEx && rx.Index == i {
+				e.set(s, rx, *joined)
+			}
+		}
+	}
+}
+
+var kVisiting = map[*ssa.Function]bool{}
